@@ -1,13 +1,20 @@
 (* C03 — decoded events do not depend on read boundaries and follow
    leftmost-longest rules.  Statements only; each is closed by a lemma proved in
-   Automata/Tokenizer{Run,Munch,Theorems}.v.
+   Automata/Tokenizer{Run,Munch,Theorems}.v, Decoder/EventsTheorems.v or Decoder/PollLoop.v.
+
+   Counted (6 Theorems here, 2 in Props/C03Prod.v): C03_chunking, C03_munch, C03_fuel,
+   C03_prod_terminal, C03_public_wrappers, C03_poll_loop; C03_prod_language_event/_command.
+   Audited but not counted: Lemmas about the specification alone (C03_no_loss, C03_munch_unfold,
+   C03_first_stop, C03_longest_acc, C03_longest, C03_raw_span, C03_accepted_span), the instance
+   C03_prod, the stated limit C03_poll_loop_handler_error, and the Examples.
 
    Every theorem of the first part is generic: it holds for EVERY automaton
    (state type Q, start q0, partial transition function delta, flags accepting /
    terminal — nothing is assumed about them) and EVERY payload decoder
    decode_item, every input, every partition into reads (empty reads allowed).
    The second part instantiates them at the production automata regenerated from
-   src/decoder.rs on every run (Gen/ProdDFA.v). *)
+   src/decoder.rs on every run (Gen/ProdDFA.v), at the public wrappers and at the read
+   loop of UnixTerminal::poll.  Readings of the property are listed in design/C03.md. *)
 From Coq Require Import List NArith Arith Bool.
 From SNT Require Import Base.Outcome Automata.DfaData Automata.DfaDataProofs
   Automata.Tokenizer Automata.TokenizerRun Automata.TokenizerMunch Automata.TokenizerTheorems
